@@ -13,8 +13,14 @@ def check_record(case, rec) -> list:
     d = case.decl
     model = [(v.value, v.ident, v.name) for v in d.sorted()]
     got = [(v[0], v[1], v[2]) for v in res["values"]]
-    if got != model:
-        k = next((i for i, (a, b) in enumerate(zip(got, model)) if a != b), min(len(got), len(model)))
+    def same(a, b):
+        # an open model name (raw identifier) matches either spelling
+        if b[2].startswith("\x01"):
+            return a[0] == b[0] and a[1] == b[1] and a[2] in (b[2][1:], b[2][3:])
+        return a == b
+
+    if len(got) != len(model) or not all(same(a, b) for a, b in zip(got, model)):
+        k = next((i for i, (a, b) in enumerate(zip(got, model)) if not same(a, b)), min(len(got), len(model)))
         errs.append("macro's sorted (discriminant, ident, name) list differs from the model at index %d: macro %r, model %r"
                     % (k, got[k] if k < len(got) else None, model[k] if k < len(model) else None))
     vals = [v[0] for v in res["values"]]
